@@ -348,13 +348,16 @@ func main() {
 		m := model.New(false)
 		uu := *u
 		uu.BadRepos = append(append([]string(nil), ill...), "../"+prefix+"ey", "../other")
+		// view names that sort between a name and that name followed by '/'
+		uu.Repos = append(append([]string(nil), uu.Repos...), "a-b", "a.b/c", "a0")
 		opts := model.GenOpts{Writers: h%2 == 0, Uploads: true, BadNames: true, BadRange: true}
 		run.Eval(1)
 		for i := 0; i < 40; i++ {
 			var op *model.Op
 			switch rng.IntN(8) {
 			case 0:
-				sa := []string{"", "a", "a/b", "b", "a/a", "zz", prefix, prefix + "/a", "0"}[rng.IntN(9)]
+				// also start points that are no names: ending in '/', or a stem of names that continue with '-' or '.'
+				sa := []string{"", "a", "a/b", "b", "a/a", "zz", prefix, prefix + "/a", "0", "a/", "a/b/", "b/", "/", "a-", "a.b/", "a."}[rng.IntN(16)]
 				op = &model.Op{Kind: "Repositories", StartAfter: sa, StopAfter: rng.IntN(3)}
 			default:
 				op = uu.GenOp(rng, m, opts)
